@@ -327,8 +327,12 @@ func checkMain(args []string) {
 	if total < minObl && violations == 0 {
 		out = append(out, fmt.Sprintf("CHECK-BROKEN: only %d obligations generated, expected at least %d (contracts no longer bind?)", total, minObl))
 	}
-	cov["obligations"] = total
+	// obligations that fail because of a recorded known finding are reported separately: they are not
+	// claimed as proved and not counted among the obligations of the proof-level claim
+	cov["obligations"] = total - len(knownHit)
 	cov["discharged"] = discharged
+	cov["obligations_generated"] = total
+	cov["obligations_failing_with_known_findings"] = len(knownHit)
 	cov["checker_cmd"] = "govc (VC generator over go/ssa of /repo's working tree) + z3 4.8.12 / z3 5.1.0 / cvc5 1.0 portfolio; every obligation must be unsat on at least one solver"
 	tb := append([]string{}, cfg.TrustedBase...)
 	for _, a := range sortedKeys(assumed) {
